@@ -23,7 +23,7 @@ def adversarial(rng, own, mtu):
     M = rng.choice(F.STATIONS)
     cap14 = (mtu - 34) // 14
     cap6 = (mtu - 36) // 6
-    cnt = lambda cap: rng.choice([0, 1, cap - 1, cap, cap + 1, 0x7fff, 0x8000, 0xffff, rng.randrange(65536)])
+    cnt = lambda cap: rng.choice([0, 1, cap - 1, cap, cap + 1, 0x7fff, 0x8000, 0xffff, rng.randrange(65536), rng.choice(F.wrap_counts(14)), rng.choice(F.wrap_counts(6)), rng.choice(F.wrap_counts(20))])
     c = rng.random()
     if c < 0.2:
         n = rng.choice([0, 1, 3, cap14])
@@ -80,6 +80,11 @@ def cases(rng, tier, X):
                     ops.append('tbl add 0 %s %d %d' % (rng.choice(F.STATIONS), 1, 1))
                     ops.append('fsm step 2 3')
         out.append(('a%d' % k, ops))
+    # the universal traffic and the small-scope sequences of the frame-level checks, here under ASan + UBSan (use after free, double free,
+    # reads of freed list nodes, signed overflow ... in any handler, after any history)
+    for k in range(60 if tier == 'quick' else 6000):
+        out.append(('u%d' % k, F.universal(rng)))
+    out += F.small_scope(2 if tier == 'quick' else 3)
     # every length 0..60 and around the MTU of one frame per opcode (thorough: all lengths)
     mtu = 576
     for op in range(13):
